@@ -450,6 +450,43 @@ def run(prog, rep, tier):
         rep.ob('R20.5', ok, 'R20.5|%s|extract-via-caller-writers' % exi.nkey, msg, exi.loc())
 
 
+    # ---------------- R20.8 adapter bookkeeping follows what the callback reported, not what was asked for
+    # ("write callbacks that accept any part of each buffer" / read callbacks that deliver part of it: a position or counter kept by the adapter and
+    #  advanced by the requested length drifts as soon as a callback transfers less)
+    for adt, name, tr in (('CallbackOutput', 'write', 'std::io::Write'), ('CallbackInputRead', 'read', 'std::io::Read')):
+        ab = one_body(prog, rep, 'R20.8', 'mla-bindings-c', adt=adt, name=name, trait=tr)
+        if ab is None:
+            continue
+        ind = [b for b in ab.blocks if b.term.kind == 'call' and 'indirect' in b.term.callee]
+        outs = set()
+        for cb in ind:
+            for a_ in cb.term.args:
+                if a_.place is not None:
+                    e_ = expr_of(ab, a_)
+                    if e_[0] in ('ref',) or ab.lty(a_.place[0]).startswith(('*mut', '&mut')):
+                        outs |= {l for l in origins(ab, [a_.place[0]], through_calls=False).locals if ab.lty(l) in ('u32', 'u64', 'usize', 'i64')}
+        bad = []
+        nst = 0
+        for bl in ab.blocks:
+            if bl.cleanup:
+                continue
+            for i, st in enumerate(bl.stmts):
+                if st.kind != 'assign' or not st.place[1] or st.place[1][0] != ('deref',) or st.place[0] != 1:
+                    continue
+                nst += 1
+                vals = [op.place[0] for op in st.rv.ops if op.place is not None]
+                if not vals:
+                    continue
+                o = origins(ab, vals)
+                from_len = any(ab.blocks[c].term.cmethod == 'len' and ab.blocks[c].term.args and ab.blocks[c].term.args[0].place is not None and
+                               2 in origins(ab, [ab.blocks[c].term.args[0].place[0]], through_calls=False).params for c in o.calls)
+                from_count = bool(o.locals & outs)
+                if from_len and not from_count:
+                    bad.append('%s at %s' % (place_str(ab, st.place), ab.loc(bl.idx, i)))
+        rep.ob('R20.8', not bad, 'R20.8|%s|bookkeeping-follows-reported-count' % ab.nkey,
+               'no state of the adapter is advanced by the requested length (%d store(s) examined)' % nst if not bad else
+               'the adapter updates %s from the length it asked the callback to transfer, not from the count the callback reported: after a partial transfer the state is wrong' % ', '.join(bad), ab.loc())
+
     # ---------------- R20.7 no adaptor throws away an error of the destination
     discarded_sink_errors(prog, rep, 'R20.7')
 
